@@ -13,9 +13,15 @@ def _call(mod, fn, style, **kw):
 
 
 TS = ("rules.shared_typestate", "typestate_rules", "facts")
+OPENERS = ("rules.shared_options", "opener_rules", "facts")
+ENTRYF = ("rules.shared_options", "entry_fields_rules", "facts")
+RREF = ("rules.shared_refusals", "read_refusals", "ctx")
+WREF = ("rules.shared_refusals", "write_refusals", "ctx")
 
 FOREIGN = {
     "C01": [  # write -> read round trip
+        (WREF, "the writer turns away no call sequence it used to accept"),
+        (RREF, "... and the reader no archive it used to accept: what was written is read back"),
         (("rules.C02", "flag_rules", "ctx"), "names are flagged UTF-8 exactly when non-ASCII, so they read back as the same string"),
         (("rules.C19", "flag_decode_rules", "facts"), "the reader picks the name decoder by that flag"),
         (TS, "every entry opened through the writer starts with fresh accounting and is closed, for every call sequence"),
@@ -27,6 +33,7 @@ FOREIGN = {
         (("rules.C04", "table_rules", "facts"), "a correct entry is read to EOF without a checksum error, a wrong one never"),
     ],
     "C02": [
+        (ENTRYF, "the headers describe the entry that was asked for: method, flags, timestamp, large-file form come from the options"),
         (TS, "stored CRC/sizes describe the entry's own bytes: fresh accounting per entry over all call sequences"),
         (("rules.shared_zip64", "guard_rules", "ctx"), "a non-large entry that outgrows 4 GiB never yields a finished archive"),
         (("rules.C18", "bits_rules", "facts"), "the DOS date/time words are the packed fields"),
@@ -45,13 +52,19 @@ FOREIGN = {
         (("rules.C03", "dosmode_rules", "facts"), "permission bits derived from DOS attributes"),
     ],
     "C08": [
+        (OPENERS, "the large_file request reaches the entry through every opener"),
+        (ENTRYF, "... and is recorded as given"),
         (("rules.C02", "narrow_rules", "ctx"), "no value is truncated into a 16/32-bit field"),
     ],
     "C10": [
+        (RREF, "both readers refuse the same inputs: no refusal is added to one of them"),
         (("rules.C03", "fieldwriters_rules", "facts"), "both readers report what the headers hold"),
         (("rules.C04", "table_rules", "facts"), "contents are CRC-checked the same way"),
     ],
     "C13": [
+        (WREF, "appending entries is refused only where it was"),
+        (RREF, "an existing archive that opens for reading opens for append"),
+        (ENTRYF, "the appended entries are recorded as asked for"),
         (("rules.C03", "offset_rules", "facts"), "archives with prepended data / ZIP64 records are located as the reader locates them"),
         (("rules.C03", "search_rules", "ctx"), "same end-record search"),
         (("rules.shared_zip64", "eocd_rules", "ctx"), "more than 65535 entries after an append get ZIP64 end records"),
@@ -61,11 +74,30 @@ FOREIGN = {
         (("rules.C02", "flag_rules", "ctx"), "re-emitted names keep the flag that matches their bytes"),
     ],
     "C14": [
+        (WREF, "any entry that can be opened raw can be copied: the copy path adds no refusal (method, timestamp, size ...)"),
+        (ENTRYF, "the copy's record holds the options raw_copy derived from the source (start_entry is shared)"),
         (("rules.C03", "fieldwriters_rules", "facts"), "the source's accessors report the recorded values"),
         (("rules.C18", "bits_rules", "facts"), "the copied timestamp re-packs to the same words"),
     ],
+    "C15": [
+        (RREF, "the right password is refused nowhere new (entry length, method, flags ...)"),
+        (OPENERS, "an entry opened with encryption keys is written encrypted, whichever opener is used"),
+        (ENTRYF, "the encrypted flag is set exactly when keys were given"),
+    ],
+    "C17": [
+        (WREF, "aligned / extra-data entries are refused exactly where the reviewed validation refuses them"),
+        (OPENERS, "start_file_aligned / start_file_with_extra_data open the entry that was asked for"),
+    ],
     "C18": [
+        (OPENERS, "the caller's timestamp reaches the entry through every opener"),
+        (ENTRYF, "... and is recorded as given, unconditionally"),
         (("rules.C13", "raw_rules", "facts"), "append re-writes parsed entries untouched"),
+    ],
+    "C16": [
+        (RREF, "the right password is refused nowhere new; tampering is refused everywhere it was"),
+    ],
+    "C20": [
+        (("rules.C03", "central_rules", "ctx"), "opening an entry records its data start itself, on every path: what a handle reports never depends on what a clone did before"),
     ],
 }
 
